@@ -26,8 +26,11 @@ WALKS = {'quick': (60, 120), 'thorough': (600, 300)}
 BUDGET = {'quick': 45, 'thorough': 600}
 
 
-def cfg_for(retry):
-    return dict(time_opts={'connect_retry_time': retry})
+def cfg_for(retry, defer=False):
+    c = dict(time_opts={'connect_retry_time': retry})
+    if defer:
+        c['defer_close'] = True
+    return c
 
 
 def plan(tier, seed):
@@ -36,17 +39,20 @@ def plan(tier, seed):
     for retry in CFGS[tier]:
         for p in range(PARTS[tier]):
             shards.append(dict(kind='bfs', retry=retry, part=p, nparts=PARTS[tier], d0=d0, depth=d, budget=BUDGET[tier]))
+        if retry in (10, 30):
+            for p in range(PARTS[tier]):
+                shards.append(dict(kind='bfs', retry=retry, part=p, nparts=PARTS[tier], d0=d0, depth=d, budget=BUDGET[tier], defer=True))
     n, length = WALKS[tier]
     nshard = 4 if tier == 'quick' else 16
     for i in range(nshard):
         shards.append(dict(kind='walk', seed=seed * 1000 + i, n=n // nshard + 1, length=length,
-                           retry=CFGS['thorough'][i % 5]))
+                           retry=CFGS['thorough'][i % 5], defer=bool(i % 2)))
     return shards
 
 
 def run_shard(sh):
     res = dict(evaluations=0, counters={}, maxima={}, sets={}, distinct=[], samples=[], violations=[])
-    cfg = cfg_for(sh['retry'])
+    cfg = cfg_for(sh['retry'], sh.get('defer', False))
     stats = dict(max_live=0, attempts=0, late=0, finals=0, writes=0)
 
     def note(r):
@@ -70,13 +76,13 @@ def run_shard(sh):
                          multi=True, on_state=on_state, time_budget=sh['budget'], on_run=note)
         viol.update({k: v for k, v in ex.viol.items() if k not in viol})
         res['evaluations'] = ex.execs
-        res['distinct'] = ['%s|%d' % (sh['retry'], hash(k)) for k in ex.seen]
+        res['distinct'] = ['%s|%s|%d' % (sh['retry'], sh.get('defer', False), hash(k)) for k in ex.seen]
         res['counters'] = dict(executed_sequences=ex.execs, executed_events=ex.events, states=len(ex.seen),
                                same_instant_choice_points=ex.choice_points, silent_300s_continuations=stats['finals'],
                                connect_attempts_observed=stats['attempts'], late_accepts=stats['late'],
                                writes_observed=stats['writes'], truncated_shards=int(ex.truncated))
         res['maxima'] = dict(max_simultaneous_live_connectors=stats['max_live'], depth_reached=ex.depth_reached)
-        res['sets'] = dict(connect_retry_times=[sh['retry']])
+        res['sets'] = dict(connect_retry_times=[sh['retry']], close_completion=['deferred (separate event)' if sh.get('defer') else 'same instant'])
         res['violations'] = list(viol.values())
         if sh['part'] == 0:
             res['samples'] = [dict(retry=sh['retry'], events=list(s)) for s in list(ex.seen.values())[-2:]]
